@@ -2,11 +2,14 @@ package main
 
 // Structure extractors: pattern-specific readers that turn a piece of Go
 // control structure into Gallina *data*.  Each fails loudly when the pattern
-// it expects is not found.
+// it expects is not found.  Extractors register themselves in init().
+
+var structureExtractors = map[string]func(m *modCtx, sc StructureCfg){}
 
 func (m *modCtx) extractStructure(sc StructureCfg) {
-	switch sc.Kind {
-	default:
+	f, ok := structureExtractors[sc.Kind]
+	if !ok {
 		fail("unknown structure extractor kind %q", sc.Kind)
 	}
+	f(m, sc)
 }
